@@ -350,6 +350,9 @@ func (te *TemplateEngine) RenderToDocument(templateName string, data *TemplateDa
 		return nil, WrapErrorWithContext("render_to_document", err, templateName)
 	}
 
+	// 所有渲染步骤完成后，恢复被保护的值
+	unguardDocumentText(doc)
+
 	return doc, nil
 }
 
@@ -435,6 +438,35 @@ func (te *TemplateEngine) renderBlocks(content string, template *Template, data 
 	})
 }
 
+// templateValueGuard 插入到被替换进模板的值里，使值中出现的 "{{" 或 "[IMAGE:" 不会被
+// 后续的渲染步骤当作模板语法再次解释；渲染完成后由 unguardTemplateText 去掉
+const templateValueGuard = "\x00wz\x00"
+
+// guardTemplateValue 保护一个即将插入模板内容的值：值按原样输出，其中的任何内容都不是模板语法
+func guardTemplateValue(value string) string {
+	if !strings.ContainsAny(value, "{[") {
+		return value
+	}
+	value = strings.ReplaceAll(value, "{", "{"+templateValueGuard)
+	return strings.ReplaceAll(value, "[", "["+templateValueGuard)
+}
+
+// unguardTemplateText 去掉 guardTemplateValue 插入的保护标记
+func unguardTemplateText(text string) string {
+	return strings.ReplaceAll(text, templateValueGuard, "")
+}
+
+// unguardDocumentText 去掉文档段落文本中的保护标记
+func unguardDocumentText(doc *Document) {
+	for _, element := range doc.Body.Elements {
+		if para, ok := element.(*Paragraph); ok {
+			for i := range para.Runs {
+				para.Runs[i].Text.Content = unguardTemplateText(para.Runs[i].Text.Content)
+			}
+		}
+	}
+}
+
 // renderVariables 渲染变量
 func (te *TemplateEngine) renderVariables(content string, variables map[string]interface{}) string {
 	varPattern := regexp.MustCompile(`\{\{(\w+)\}\}`)
@@ -442,7 +474,7 @@ func (te *TemplateEngine) renderVariables(content string, variables map[string]i
 	return varPattern.ReplaceAllStringFunc(content, func(match string) string {
 		varName := varPattern.FindStringSubmatch(match)[1]
 		if value, exists := variables[varName]; exists {
-			return te.interfaceToString(value)
+			return guardTemplateValue(te.interfaceToString(value))
 		}
 		return match // 保持原样
 	})
@@ -580,7 +612,7 @@ func (te *TemplateEngine) renderLoopsNested(content string, lists map[string][]i
 			}
 
 			// 创建循环上下文变量
-			loopContent = strings.ReplaceAll(loopContent, "{{this}}", te.interfaceToString(item))
+			loopContent = strings.ReplaceAll(loopContent, "{{this}}", guardTemplateValue(te.interfaceToString(item)))
 			loopContent = strings.ReplaceAll(loopContent, "{{@index}}", strconv.Itoa(i))
 			loopContent = strings.ReplaceAll(loopContent, "{{@first}}", strconv.FormatBool(i == 0))
 			loopContent = strings.ReplaceAll(loopContent, "{{@last}}", strconv.FormatBool(i == len(listData)-1))
@@ -592,7 +624,7 @@ func (te *TemplateEngine) renderLoopsNested(content string, lists map[string][]i
 					placeholder := fmt.Sprintf("{{%s}}", key)
 					// 只替换非列表类型的值
 					if _, isList := value.([]interface{}); !isList {
-						loopContent = strings.ReplaceAll(loopContent, placeholder, te.interfaceToString(value))
+						loopContent = strings.ReplaceAll(loopContent, placeholder, guardTemplateValue(te.interfaceToString(value)))
 					}
 				}
 
